@@ -4,3 +4,6 @@ package memberlist
 
 // verifYield is a no-op unless built with the "verif" tag (simulation harness).
 func verifYield(site string, m *Memberlist) {}
+
+// verifYieldKey is a no-op unless built with the "verif" tag.
+func verifYieldKey(site string, m *Memberlist, key string) {}
